@@ -15,6 +15,10 @@
 // kind=tokenize  pat opts n subj [win]  -> "C\t..." then per subject "T\t<k>{\t<escaped token>}" | "E\t<type>\t<code>"
 // kind=replace   pat opts rep n subj [win] -> "C\t..." then per subject "R\t<escaped result>" | "E\t<type>\t<code>"
 // kind=allmatches pat opts n subj [win] -> per subject "A\t<k>{\t s,e }" | "E\t..."
+// kind=matchseq  np, pat0..pat<np-1>, opts0..opts<np-1>, n, steps = n lines "<pattern index>\t<escaped subject>"
+//                ONE caller-owned Match object and ONE compiled object per pattern are used for the whole sequence (A); every step is
+//                repeated with a fresh Match on the same compiled object (B) and with a fresh Match on a freshly compiled object (C).
+//   answer: np lines "C\t<why>", then per step "S\t<A>\t<B>\t<C>", each = "0" | "1:" s "," e { ";" s "," e } | "E:<type>" | "X" (pattern did not compile)
 #include "xvcommon.hpp"
 #include <xercesc/util/regx/RegularExpression.hpp>
 #include <xercesc/util/regx/Match.hpp>
@@ -180,6 +184,55 @@ static std::string hAllMatches(const Req& r) {
     return out;
 }
 
+static std::string oneMatch(RegularExpression* re, const XMLCh* subj, Match& m) {
+    std::string out;
+    try {
+        bool v = re->matches(subj, &m);
+        if (!v) return "0";
+        out = "1:";
+        for (int g = 0; g < m.getNoGroups(); g++) {
+            if (g) out += ";";
+            out += std::to_string(m.getStartPos(g)) + "," + std::to_string(m.getEndPos(g));
+        }
+    }
+    catch (const OutOfMemoryException&) { out = "E:OutOfMemoryException"; }
+    catch (const XMLException& e) { out = "E:" + esc(e.getType()); }
+    catch (...) { out = "E:FOREIGN"; }
+    return out;
+}
+
+static std::string hMatchSeq(const Req& r) {
+    long np = geti(r, "np", 0);
+    std::vector<std::unique_ptr<U> > pats, opts;
+    std::vector<std::unique_ptr<RegularExpression> > res;
+    std::string out;
+    for (long i = 0; i < np; i++) {
+        pats.emplace_back(new U(get(r, "pat" + std::to_string(i))));
+        opts.emplace_back(new U(get(r, "opts" + std::to_string(i))));
+        std::string why;
+        res.emplace_back(compileRe(*pats.back(), *opts.back(), true, why));
+        out += "C\t" + why + "\n";
+    }
+    std::vector<std::string> steps = split(get(r, "steps"), '\n');
+    long n = geti(r, "n", 0);
+    Match shared;                                  // the caller-owned Match object of the whole sequence
+    for (long k = 0; k < n && k < (long)steps.size(); k++) {
+        size_t tab = steps[k].find('\t');
+        long pi = atol(steps[k].c_str());
+        U subj(tab == std::string::npos ? std::string() : steps[k].substr(tab + 1));
+        if (pi < 0 || pi >= np || !res[pi]) { out += "S\tX\tX\tX\n"; continue; }
+        std::string a = oneMatch(res[pi].get(), subj.c(), shared);
+        std::string b; { Match fresh; b = oneMatch(res[pi].get(), subj.c(), fresh); }
+        std::string c;
+        {
+            std::string why; std::unique_ptr<RegularExpression> re2(compileRe(*pats[pi], *opts[pi], true, why));
+            if (!re2) c = "X"; else { Match fresh; c = oneMatch(re2.get(), subj.c(), fresh); }
+        }
+        out += "S\t" + a + "\t" + b + "\t" + c + "\n";
+    }
+    return out;
+}
+
 int main() {
     XMLPlatformUtils::Initialize();
     std::map<std::string, Handler> hs;
@@ -187,6 +240,7 @@ int main() {
     hs["tokenize"] = hTokenize;
     hs["replace"] = hReplace;
     hs["allmatches"] = hAllMatches;
+    hs["matchseq"] = hMatchSeq;
     int rc = serve(hs);
     XMLPlatformUtils::Terminate();
     return rc;
